@@ -18,6 +18,8 @@ import (
 	"fmt"
 	"go/ast"
 	"go/format"
+	"go/parser"
+	"go/token"
 	"go/types"
 	"log"
 	"os"
@@ -164,6 +166,11 @@ func newPackage(program *loader.Program, pkgInfo *loader.PackageInfo, plugins []
 		}
 
 		if changed {
+			// the file is printed from its syntax tree: for a file with syntax errors the tree is
+			// partial and printing it would throw code away.
+			if _, err := parser.ParseFile(token.NewFileSet(), fileInfo.fullpath, nil, parser.ParseComments); err != nil {
+				return nil, fmt.Errorf("cannot change function call names in %s, because it does not parse: %v", fileInfo.fullpath, err)
+			}
 			info, err := os.Stat(fileInfo.fullpath)
 			if err != nil {
 				return nil, fmt.Errorf("stat %s: %v", fileInfo.fullpath, err)
